@@ -6,6 +6,7 @@ CONSTANTS
   MaxMods = 7
   WorkUnits = {1, 2, 9}
   MaxCounter = 4
+  AllocWhileCounter = TRUE
   Depth = 40
 CONSTRAINT GenBounded
 INVARIANT Emit
